@@ -19,7 +19,8 @@ LEVEL_TEXT = ('Seeded differential runs of the three real optimizer wrappers aga
               'NumPy statistics, and 1e5-example streams split into few large update() calls (count products beyond 2**31). The optimizer space is sampled, the batching space is complete for n <= 6.'
               ' Further streams: half-precision parameters with wider updates, 1e5-example batches, half-precision and'
               ' large-int value streams.'
-              ' Round e/f: params pytree structure after apply_gradients, metric_empty (zero-size updates), NumPy int64 metric values, dtype of the metric state after reset.')
+              ' Round e/f: params pytree structure after apply_gradients, metric_empty (zero-size updates), NumPy int64 metric values, dtype of the metric state after reset.'
+              ' Round g: a non-finite epoch before reset.')
 LEVEL_NOTE = ('Trusts optax (update/apply_updates/init), the un-filtered nnx graph traversal (nnx.state(model), '
               'nnx.iter_graph: C03/C14/C16 territory) used to enumerate Variables, the 15-line wrt predicate evaluator and '
               'the NumPy statistics in vf/props/c17.py, and the JAX compat aliases.')
